@@ -2,6 +2,7 @@ mod ast;
 mod compose;
 mod engines;
 mod harness;
+mod luarun;
 mod refsylt;
 mod selftest;
 mod pool;
